@@ -13,6 +13,7 @@ REQUIRES = ["From FL Require Import Num ListX Flat Grid."]
 SHARD = 12
 CHUNK = 2
 CASE_TIMEOUT = 300
+SEARCH_CAP = 600
 
 LEVEL_TEXT = ("Proof (Coq): for the `values` rule and budget update regenerated from "
               "_GridGenerator.accumulate_integer_grid on every run, the integer lattice has sum|c_i| <= n "
@@ -204,7 +205,10 @@ def impl(case):
     est = GridSearch(CellMeanRegressor() if reg else ExactLearner(), _moment(case),
                      constraint_weight=float(Fraction(case["constraint_weight"])),
                      grid_size=case["grid_size"], grid_limit=float(Fraction(case["grid_limit"])))
-    est.fit(X, y, sensitive_features=sf)
+    try:
+        est.fit(X, y, sensitive_features=sf)
+    except Exception as e:  # fit must train one predictor per grid point: an exception is a finding
+        return {"fit_error": f"{type(e).__name__}: {e}"[:300]}
     idx = est.lambda_vecs_.index
     res = {"index": [list(t) if isinstance(t, tuple) else t for t in idx],
            "lambda_cols": [int(c) for c in est.lambda_vecs_.columns],
@@ -283,6 +287,8 @@ def term(case, out):
         events = glist(_events(case), lambda e: gopt(e, gz))
         basis = (f"let events := {events} in let groups := {groups} in let cols := up_cols events groups in "
                  f"let negs := up_negs events groups in let m := up_m events groups in let force := false in ")
+    if out is not None and "fit_error" in out:
+        return None
     if out is not None and out.get("objectives") and len(out["objectives"]) == len(out["gammas"]):
         objs = glist(out["objectives"], _fq)
         gammas = glist([glist(g, _fq) for g in out["gammas"]])
@@ -315,6 +321,10 @@ def _loss(w, obj, gam):
 def compare(case, out, model):
     v = []
     E = "GridSearch.fit"
+    if "fit_error" in out:
+        cls = "raises-all-zero-sample-weights" if "at least one non-zero" in out["fit_error"] else "raises"
+        return [(f"{PID}/{E}/fit/{cls}", f"fit raised {out['fit_error']}",
+                 "fit trains one predictor per multiplier vector", "property")]
     gs = case["grid_size"]
     limit = float(Fraction(case["grid_limit"]))
     w = float(Fraction(case["constraint_weight"]))
@@ -424,6 +434,8 @@ def compare(case, out, model):
 
 
 def tags(case, out, model):
+    if "fit_error" in out:
+        return ["fit-raised"]
     d, empty = _basis_dim(case)
     t = [f"moment:{case['moment']}", f"groups:{len(set(case['g']))}", f"dim:{d}",
          f"bound:{sorted(case['bound'])[0]}", f"gs:{min(case['grid_size'] // 10 * 10, 60)}+",
@@ -436,6 +448,8 @@ def tags(case, out, model):
 
 
 def nontrivial(case, out, model):
+    if "fit_error" in out:
+        return False
     preds = {tuple(p) for p in out["preds"]}
     w = float(Fraction(case["constraint_weight"]))
     losses = [_loss(w, o, g) for o, g in zip(out["obj_re"], out["gamma_re"])]
